@@ -323,7 +323,7 @@ func check(src string, ci int, ss *session) (vs []engine.Violation, outcome stri
 	o := xpx.RunMachine(m, tree.At(contexts[ci]...))
 	got := observed(tree)
 	if ci == 0 && debugToo(src) {
-		// (on one of the four context positions - a non-root one; thorough tier: for one expression in sixteen,
+		// (on one of the four context positions - a non-root one; thorough tier: for one expression in sixty-four,
 		// chosen by hash - the quick tier covers every expression of its own size) the same run with the context's debug listing on asks the data tree the very same questions
 		// (a fresh machine: the listing is a diagnostic aid and must not take part in the evaluation)
 		used := strings.Join(tree.CallStrings(), " ; ")
@@ -436,7 +436,7 @@ func debugToo(src string) bool {
 	for _, c := range src {
 		h = h*31 + int(c)
 	}
-	return h&15 == 0
+	return h&63 == 0
 }
 
 func run(c *engine.Ctx) {
